@@ -214,6 +214,19 @@ func Pool() []Block {
 					N("Result").WithBody("{\n  \"r\": true\n}")),
 				N("Method", "bar"))
 		})},
+		// URL blocks with a path parameter and no HTTP method of their own: a JSON-RPC endpoint, and a
+		// URL that holds nothing but its Path
+		{Name: "R_param", Kind: "rpc", Defines: []string{"path:/rp"}, Nodes: one(func() *Node {
+			return N("URL", "/rp/{rid}/rpc").WithParen().WithKids(
+				N("Protocol", "json-rpc-2.0"),
+				N("Method", "get"))
+		})},
+		{Name: "U_bare", Kind: "http", Defines: []string{"path:/ub"}, Nodes: func() []*Node {
+			return []*Node{
+				N("URL", "/ub/{uid}").WithParen().WithKids(N("Path").WithBody("{\n  \"uid\": \"u\"\n}")),
+				N("GET", "/ub/{uid}/photo").WithKids(N("200", "any")),
+			}
+		}},
 		{Name: "M_resp", Kind: "macro", Defines: []string{"macro:@resp"}, Nodes: one(func() *Node {
 			return N("MACRO", "@resp").WithParen().WithKids(N("404", "any"), N("500").WithBody("{\n  \"e\": \"m\"\n}"))
 		})},
